@@ -574,6 +574,25 @@ def check_heading_count(doc, rtf_text, parsed):
 FAMILIES["heading_count"] = check_heading_count
 
 
+def check_no_needless_break(doc, rtf_text, parsed):
+    """C04 (breaks only when required), the part a read-back can judge without re-deriving the budget: a table whose every row, heading row
+    and repeated component fits the nrow budget several times over, without new_page and without subline_by, sits on one page."""
+    body = doc.rtf_body
+    if isinstance(body, list) or body.subline_by or (body.page_by and body.new_page):
+        return []
+    n_levels = len(body.page_by or [])
+    worst = doc.df.height * (1 + n_levels) + 6
+    if doc.rtf_page.nrow < worst:
+        return []
+    pages = [p for p in parsed.pages if p.rows]
+    if len(pages) > 1:
+        return [f"{len(pages)} pages although all {doc.df.height} rows with their headings fit nrow = {doc.rtf_page.nrow} (rows per page {[len(p.rows) for p in pages]})"]
+    return []
+
+
+FAMILIES["no_needless_break"] = check_no_needless_break
+
+
 # ---- multi-section documents (df = [..], rtf_body = [..]) ---------------------------------------------------------------------------
 def multi_configs(rtf, pl, seed=0, limit=None):
     """Yield (description, builder) for multi-section documents: 2-3 sections with different columns, small / large nrow, footnote and
